@@ -145,6 +145,7 @@ def execute(prop, workload, seed=None, replay=None, params=None, keep_trace=True
         "key": ctx.key if ctx.key is not None else ctx.digest(),
         "nontrivial": bool(ctx.nontrivial),
         "tape": list(tape.rec),
+        "marks": list(tape.marks),
         "tape_len": len(tape.rec),
         "fired": dict(fired),
         "probes": dict(probes),
